@@ -2,7 +2,7 @@
 and the cpu list are read off the event trace and compared with a checker-side statement of the RAMSES traversal."""
 from __future__ import annotations
 
-from ..models import ModelEval, PyObj, Marker, Raised
+from ..models import ModelEval, PyObj, Marker, Raised, explore
 from ..peval import Model, Unsupported, ProgramRaised
 from ..source import AnalysisError
 from .core_models import RawTok, ArrTok, core_hooks, tok_origin
@@ -416,16 +416,29 @@ def check_load(run, tree):
     for label, over, exp in SCENARIOS:
         construct = "%s[%s]" % (LOAD, label)
         try:
-            sc = scenario(**over)
-            sc["reader_kinds"] = kinds
+            def attempt(over=over):
+                sc_ = scenario(**over)
+                sc_["reader_kinds"] = kinds
+                try:
+                    return ("ok", sc_) + tuple(run_load(tree, sc_))
+                except (Raised, ProgramRaised) as e:
+                    return ("raised", sc_, e, None)
+            # tests the abstraction does not decide (`if ncells == sel.size:`) are explored both ways
+            branches = explore(attempt)
             exp = dict(exp)
-            exp["lmax_meta"] = sc["level_cap"] if exp.get("cap") else sc["levelmax"]
-            try:
-                loader, out = run_load(tree, sc)
-            except (Raised, ProgramRaised) as e:
-                run.violated(construct, fi.where(), "raises %s" % e, "load(%s)" % label)
+            problems, raised, sc = [], None, None
+            for assume, (status, sc, loader, out) in branches:
+                if status == "raised":
+                    raised = loader
+                    break
+                exp["lmax_meta"] = sc["level_cap"] if exp.get("cap") else sc["levelmax"]
+                ps = check_scenario(sc, exp, loader, out, kinds)
+                if ps:
+                    problems = [(p[0], p[1] + ("" if not assume else " (assuming %s)" % ", ".join("%s%s" % ("" if v else "NOT ", k[:60]) for k, v in sorted(assume.items())))) for p in ps]
+                    break
+            if raised is not None:
+                run.violated(construct, fi.where(), "raises %s" % raised, "load(%s)" % label)
                 continue
-            problems = check_scenario(sc, exp, loader, out, kinds)
             run.ob(construct, not problems, fi.where(), "; ".join("%s: %s" % p for p in problems[:3]) or
                    "%d events: every reader follows the traversal (files %s, levels %d), one conjunction mask per block, counters and pieces exact" % (
                        len(sc["trace"]), exp["cpus"], exp["lmax"]),
